@@ -399,6 +399,53 @@ def rule_subindex(rep):
                "the first process call then panics in the kernel's `subindex < nbr_sincs` assert" % need, loc(cfn), sample={"type": t, "min_factor": need})
 
 
+def rule_crosscheck(rep):
+    """Thorough tier: the syntax-tree view and the compiler's view (MIR of the type-checked crate) must agree on how many unchecked
+    accesses, validate_buffers calls and unsafe-kernel calls each source file contains - so that nothing generated by a macro or
+    selected by cfg can hide from the syntax-tree rules."""
+    import re
+    from collections import Counter
+    import mir
+    facts = rep.ctx.facts
+    R = "R-C03-crosscheck"
+    pdoc = mir.mode_p(rep.ctx.repo)
+    kinds = {"get_unchecked": re.compile(r"::get_unchecked(_mut)?(::<|$)"), "validate_buffers": re.compile(r"(^|::)validate_buffers(::<|$)"),
+             "kernel": re.compile(r"::get_sinc_interpolated_unsafe$")}
+    mirc = Counter()
+    for b in pdoc["bodies"]:
+        if "::tests::" in b["path"] or b["path"].startswith("tests::"):
+            continue
+        for c in b["calls"]:
+            if c.get("exp"):
+                continue
+            f = c["span"].rsplit(":", 1)[0]
+            f = f.split("/src/", 1)[-1] if "/src/" in f else f.replace("src/", "", 1)
+            for k, rx in kinds.items():
+                if rx.search(c["callee"]):
+                    mirc[(f, k)] += 1
+    astc = Counter()
+    for qual, fn in facts.all_fns():
+        if not fn.get("body"):
+            continue
+        f = fn.get("_file", "")
+        if "neon" in f:
+            continue
+        for x in walk(fn["body"]):
+            if x.get("k") == "mcall" and x["name"] in ("get_unchecked", "get_unchecked_mut"):
+                astc[(f, "get_unchecked")] += 1
+            if x.get("k") == "call" and is_path(x["f"]):
+                last = x["f"]["p"].split("::")[-1]
+                if last == "validate_buffers":
+                    astc[(f, "validate_buffers")] += 1
+                if last == "get_sinc_interpolated_unsafe":
+                    astc[(f, "kernel")] += 1
+    keys = sorted(set(mirc) | set(astc))
+    for k in keys:
+        rep.ob(R, "%s/%s" % k, mirc[k] == astc[k], "%s in %s: syntax tree sees %d, MIR sees %d" % (k[1], k[0], astc[k], mirc[k]), "src/" + k[0],
+               sample={"file": k[0], "kind": k[1], "ast": astc[k], "mir": mirc[k]})
+    rep.ob(R, "summary", bool(keys), "%d (file, construct) pairs compared" % len(keys), "src/")
+
+
 def rule_validate_exact(rep):
     """validate_buffers accepts buffers of exactly the advertised size (and larger): evaluated on order representatives."""
     facts = rep.ctx.facts
@@ -442,6 +489,10 @@ def run(rep):
     rep.guarded("R-C03-validate-exact", rule_validate_exact)
     rep.guarded("R-C03-cpu-guard", rule_cpu_guard)
     rep.guarded("R-C03-subindex", rule_subindex)
+    if rep.ctx.tier == "thorough":
+        rep.guarded("R-C03-crosscheck", rule_crosscheck)
+        rep.floor("R-C03-crosscheck", 8)
+        rep.clause("R-C03-crosscheck", "(thorough) syntax-tree and MIR views agree on the number of unchecked accesses / validate_buffers calls / unsafe-kernel calls per file")
     import C06
     for t in ("SincFixedOut", "FastFixedOut"):
         def prov(rep, t=t):
